@@ -144,25 +144,31 @@ def eval_scenario(arg):
         import random
 
         rnd = random.Random(subsets_seed)
+        # a failed DATA write of one module combined with a failed meta write of ANOTHER module is the most dangerous
+        # pair (a meta may survive next to an old data file while the dependant has no valid entry): directed pairs
+        wnames = [o["name"] for o in mine if o["op"] == "write"]
+        directed = [{"fail_writes": sorted((i, j))} for i, a in enumerate(wnames) if ".data." in a or a.endswith(".data")
+                    for j, b in enumerate(wnames) if i != j and ".meta" in b and stem(a) != stem(b)]
+        rnd.shuffle(directed)
+        faults += directed[: (24 if max_points else 200)]
         if nwrites >= 2:
             pairs = [(i, j) for i in range(nwrites) for j in range(i + 1, nwrites)]
             rnd.shuffle(pairs)
-            faults += [{"fail_writes": list(p)} for p in pairs[: (20 if K <= 20 else 8)]]
+            faults += [{"fail_writes": list(p)} for p in pairs[: (20 if K <= 20 else 8)] if {"fail_writes": list(p)} not in faults]
             for _ in range(4):
                 faults.append({"fail_writes": sorted(rnd.sample(range(nwrites), rnd.randrange(2, nwrites + 1)))})
         if max_points and len(faults) > max_points:
             # quick tier: all kill positions (sampled if there are more than the cap), then singles, then pairs
             kills = faults[: K + 1]
-            if len(kills) > max_points * 2 // 3:
-                kills = [kills[i] for i in sorted(rnd.sample(range(len(kills)), max_points * 2 // 3))]
+            if len(kills) > max_points // 2:
+                kills = [kills[i] for i in sorted(rnd.sample(range(len(kills)), max_points // 2))]
             rest = faults[K + 1 :]
             singles = [f for f in rest if len(f.get("fail_writes", [])) == 1]
+            if len(singles) > max_points // 4:
+                singles = [singles[i] for i in sorted(rnd.sample(range(len(singles)), max_points // 4))]
+            # directed pairs first, then the random pairs and larger subsets
             multi = [f for f in rest if len(f.get("fail_writes", [])) > 1]
-            rnd.shuffle(multi)
-            # a failed DATA write combined with another failure is the most dangerous pair (the entry's meta may
-            # survive next to an old data file): try those first
-            wnames = [o["name"] for o in mine if o["op"] == "write"]
-            multi.sort(key=lambda f: 0 if any(i < len(wnames) and ".data." in wnames[i] for i in f["fail_writes"]) else 1)
+            multi = [f for f in multi if f in directed] + [f for f in multi if f not in directed]
             faults = (kills + singles + multi)[:max_points]
         if only_fault is not None:
             faults = [only_fault]
